@@ -87,7 +87,11 @@ public:
         //contains true when generator is finished
         bool _done = false;
         //blocking flag for synchronous access - contains false when generator is pending
+#ifdef COCLS_VERIF
+        cocls_verif::atomic<bool> _block;
+#else
         std::atomic<bool> _block;
+#endif
         //contains promise if called and there is a future waiting for result
         promise_t _awaiting;
 
